@@ -4,5 +4,6 @@ set -e
 cd /verif/engine
 export GOFLAGS=-mod=mod GOPROXY=off GOSUMDB=off GOTOOLCHAIN=local
 mkdir -p /verif/bin /verif/evidence
+go1.26.8 build -o /verif/bin/gencodec ./cmd/gencodec
 go1.26.8 build -o /verif/bin/gosym ./cmd/gosym
 echo "gosym built"
